@@ -305,6 +305,10 @@ pub fn check(prop: &str, tier_name: &str) -> i32 {
                 // kinds whose space is small are enumerated completely even in the quick tier
                 let cap = if ["splice_eol", "literal_boundary", "crlf", "lost_line", "dup_line", "swap_lines", "lost_sector", "eof", "bank_boundary"].contains(&kind) {
                     t.c16_sample.max(600)
+                } else if kind == "nest" {
+                    // deep nests cost 0.1-1 s each (the parser and the generator are super-linear in the
+                    // depth): sampled in both tiers
+                    t.c16_sample.min(480)
                 } else {
                     t.c16_sample
                 };
@@ -327,7 +331,7 @@ pub fn check(prop: &str, tier_name: &str) -> i32 {
             }
         }
         if t.c16_sample == usize::MAX {
-            exhaustive_kinds = faults::SINGLE_KINDS.iter().map(|s| s.to_string()).collect();
+            exhaustive_kinds = faults::SINGLE_KINDS.iter().filter(|k| **k != "nest").map(|s| s.to_string()).collect();
         }
         items.extend(batches(prop, base, t.selftest, t.selftest + t.c16_worlds, 100, false));
         // generated programs, plain and with one fault
